@@ -213,6 +213,11 @@ class SubsequenceSearch:
         else:
             distance = dtw.distance
             lb_keogh = dtw.lb_keogh
+        use_lb = self.use_lb
+        psi = self.dists_options.get('psi', None)
+        if use_lb and psi is not None and psi != 0 and (type(psi) is int or any(psi)):
+            # LB_Keogh is not a lower bound for DTW with psi-relaxation
+            use_lb = False
         if k is None or self.keep_all_distances:
             # Series that are skipped based on the lower bound are further away than max_dist
             self.distances = np.full((len(self.s),), np.inf)
@@ -223,7 +228,7 @@ class SubsequenceSearch:
         max_dist = self.max_dist
         self.dists_options['max_dist'] = max_dist
         for idx, series in enumerate(self.s):
-            if self.use_lb:
+            if use_lb:
                 lb = lb_keogh(self.query, series, **self.dists_options)
                 if lb > max_dist:
                     continue
